@@ -19,11 +19,6 @@ import (
 	pb "github.com/refraction-networking/conjure/proto"
 )
 
-type c03Reg struct {
-	spec   vRegSpec
-	flight []byte
-}
-
 type c03World struct {
 	s        *vStation
 	phantoms map[string][]c03Reg // registry name -> registrations on that phantom
@@ -76,25 +71,6 @@ func c03Setup(t *testing.T) *c03World {
 		}
 	}
 	return w
-}
-
-// tagRegion returns [from,to) bit positions of the flight whose flipping makes the tag invalid.
-func c03TagBits(r c03Reg) (from, to int, skip map[int]bool) {
-	skip = map[int]bool{}
-	switch r.spec.TT {
-	case pb.TransportType_Min:
-		return 0, 32 * 8, skip
-	case pb.TransportType_Obfs4:
-		// representative (32 bytes); flipping padding or MAC leaves the mark valid, which is outside C03's domain
-		return 0, 32 * 8, skip
-	case pb.TransportType_Prefix:
-		off := len(r.flight) - 64
-		// the two high bits of representative byte 31 are random padding masked by the station
-		skip[(off+31)*8+0] = true // bit index counted from the most significant bit of the byte
-		skip[(off+31)*8+1] = true
-		return off * 8, (off + 64) * 8, skip
-	}
-	return 0, 0, skip
 }
 
 type c03Probe struct {
